@@ -65,6 +65,10 @@ for _v in ('CS_FluorShell_Kissel', 'CS_FluorShell_Kissel_Cascade', 'CS_FluorShel
     IDIOMS.setdefault(_v, {})['consts'] = 'the K..M5 dispatch is written once in a Java template method and expanded per function by a C macro'
 
 
+# an idiom on constants may cover one family only (regex on the constant's name); the other constants of the pair are still compared
+IDIOM_SCOPE = {'CS_FluorShell': {'consts': r'_SHELL$'}, 'CS_FluorLine': {'consts': r'_SHELL$'}}
+
+
 def run(prog, tier):
     chk = Check('C19', tier, 'other',
                 'For each of the ~150 C function / Java method pairs of the same name (private Java helpers, *_catch adaptors, strategy '
@@ -115,6 +119,15 @@ def run(prog, tier):
         la, lb = Counter(a.lits), Counter(b.lits)
         cancel_names(d1, lb - la, lambda k: Fraction(C.const_values[k]) if k in C.const_values else cvalue(prog, k), lb)
         cancel_names(d2, la - lb, lambda k: jvalue(J, k), la)
+        if n in IDIOM_SCOPE and 'consts' in IDIOM_SCOPE[n]:
+            # the idiom covers one family of constants only; all other named constants are compared as usual
+            rx = re.compile(IDIOM_SCOPE[n]['consts'])
+            o1 = Counter({k: v for k, v in d1.items() if not rx.search(k)})
+            o2 = Counter({k: v for k, v in d2.items() if not rx.search(k)})
+            chk.decide(not o1 and not o2, 'twin-consts', JX, n, 'consts outside the idiom', loc,
+                       'the two translations do not mention the same named constants (beyond the %s family that the translation idiom covers): only in C %s, '
+                       'only in Java %s (C %s:%d)' % (IDIOM_SCOPE[n]['consts'], dict(o1), dict(o2), cf['rel'], cf['ln']),
+                       why='same named constants outside the idiom')
         decide('consts', not d1 and not d2,
                'the two translations do not mention the same named constants: only in C %s, only in Java %s (C %s:%d)' % (
                    dict(d1), dict(d2), cf['rel'], cf['ln']), 'same multiset of named constants (%d)' % sum(a.consts.values()))
@@ -173,6 +186,19 @@ def run(prog, tier):
                        'a range test on a parameter that selects a non-failing branch differs: only in C %s, only in Java %s (C %s:%d): on the boundary '
                        'value the two sides take different branches' % (sorted(ba - bb), sorted(bb - ba), cf['rel'], cf['ln']),
                        'same branch selectors %s' % sorted(ba))
+            # E'' early value returns: the guards already passed when `if (c) return v;` is reached must be the same on both sides
+            ea, eb = G.early_returns('c', n), G.early_returns('j', n)
+            common = sorted(set(ea) & set(eb))
+            if common:
+                diffs = []
+                for c_ in common:
+                    xa = {g for g in ea[c_] if range_guard(g) and param_of(g) not in disp}
+                    xb = {g for g in eb[c_] if range_guard(g) and param_of(g) not in disp}
+                    if xa != xb:
+                        diffs.append('before `if (%s) return`: only C has passed %s, only Java has passed %s' % (c_, sorted(xa - xb), sorted(xb - xa)))
+                decide('early-returns', not diffs,
+                       'an early value return is reached with different argument checks behind it: %s (C %s:%d): for those inputs one side reports an error, '
+                       'the other returns the value' % ('; '.join(diffs), cf['rel'], cf['ln']), 'same guards before %d early return(s)' % len(common))
     chk.floor('pairs compared', compared, 125)
     unused = [k for k in list(NOT_COMPARED) + list(IDIOMS) if k not in pairs]
     for k in unused:
